@@ -238,11 +238,16 @@ fn new_line_state(
         _ => delta_unreachable(""),
     };
 
+    // (the number of prefix columns actually found on this line: what its state will say)
+    let n_parents = prefix
+        .as_ref()
+        .map(|prefix| prefix.len())
+        .unwrap_or_else(|| diff_type.n_parents());
     let maybe_minus_raw_line = || {
         maybe_raw_line(
             new_raw_line,
             config.minus_style.is_raw,
-            diff_type.n_parents(),
+            n_parents,
             &[*style::GIT_DEFAULT_MINUS_STYLE, config.git_minus_style],
             config,
         )
@@ -251,7 +256,7 @@ fn new_line_state(
         maybe_raw_line(
             new_raw_line,
             config.zero_style.is_raw,
-            diff_type.n_parents(),
+            n_parents,
             &[],
             config,
         )
@@ -260,7 +265,7 @@ fn new_line_state(
         maybe_raw_line(
             new_raw_line,
             config.plus_style.is_raw,
-            diff_type.n_parents(),
+            n_parents,
             &[*style::GIT_DEFAULT_PLUS_STYLE, config.git_plus_style],
             config,
         )
